@@ -5,10 +5,16 @@
 (*    (verif accessor) is compared with the formula of the standard;       *)
 (*  - "vec": TLC computes Enc/Dec for a (key, block) pair, printed as the  *)
 (*    expected value for the replay harness;                               *)
-(*  - "keylen": NewCipher must fail exactly when the key is not 16 bytes.  *)
+(*  - "keylen": NewCipher must fail exactly when the key is not 16 bytes,  *)
+(*    whatever the bytes are (zeros, 0xff, ASCII hex digits, text);        *)
+(*  - "findhw": does the input of the S-box layer in some round of the key *)
+(*    schedule / of the encryption have a 16-bit half equal to 0000 or     *)
+(*    ffff (an implementation may look the S-box up two bytes at a time).  *)
 (***************************************************************************)
 EXTENDS SM4, TLC, Json
-CONSTANTS TablesFile, BitStep, FillStep, NLcg
+CONSTANTS TablesFile, BitStep, FillStep, NLcg,
+          FindLcg,      \* > 0: search mode - report which (key, block) pairs lcg 0..FindLcg-1 put a half-word 0000 / ffff into a round
+          ExtraLcg      \* further lcg pairs to tabulate (those the search found)
 Dump == JsonDeserialize(TablesFile)   \* [sbox: seq, t: seq of 4 seqs of <<hi,lo>>, fk: seq, ck: seq]
 
 VARIABLES c, done
@@ -17,7 +23,7 @@ VARIABLES c, done
 Val(d) == CASE d[1] = "std"  -> <<1, 35, 69, 103, 137, 171, 205, 239, 254, 220, 186, 152, 118, 84, 50, 16>>
             [] d[1] = "bit"  -> [j \in 1..16 |-> IF (d[2] \div 8) + 1 = j THEN Pow2(7 - (d[2] % 8)) ELSE 0]
             [] d[1] = "fill" -> [j \in 1..16 |-> d[2]]
-            [] d[1] = "lcg"  -> [j \in 1..16 |-> (d[2] * 37 + j * 101 + j * j * (d[2] + 3)) % 256]
+            [] d[1] = "lcg"  -> [j \in 1..16 |-> (d[2] * 37 + j * 101 + j * j * (d[2] + 3) + (d[2] \div 256) * (j * 29 + 11)) % 256]
 
 VecCases ==
   {[kind |-> "vec", k |-> <<"std", 0>>, b |-> <<"std", 0>>]} \cup
@@ -29,8 +35,21 @@ VecCases ==
 TabCases == {[kind |-> "sbox", x |-> x] : x \in 0..255} \cup
             {[kind |-> "ttab", j |-> j, x |-> x] : j \in 0..3, x \in 0..255} \cup
             {[kind |-> "fk", i |-> i] : i \in 0..3} \cup {[kind |-> "ck", i |-> i] : i \in 0..31}
-LenCases == {[kind |-> "keylen", n |-> n] : n \in 0..64}
-Cases == VecCases \cup TabCases \cup LenCases
+LenCases == {[kind |-> "keylen", n |-> n, fill |-> f] : n \in 0..64, f \in {"zero", "ff", "hexdigits", "text"}}
+ExtraCases == {[kind |-> "vec", k |-> <<"lcg", 1000 + s>>, b |-> <<"lcg", s>>] : s \in ExtraLcg}
+FindCases == {[kind |-> "findhw", s |-> s] : s \in 0..(FindLcg - 1)}
+Cases == IF FindLcg > 0 THEN FindCases ELSE VecCases \cup ExtraCases \cup TabCases \cup LenCases
+
+\* inputs of the S-box layer, round by round
+Edge(w) == w[1] \in {0, 65535} \/ w[2] \in {0, 65535}
+EdgeF(w) == w[1] = 65535 \/ w[2] = 65535
+KeyTauInputs(key) == LET mk == BytesToWords(key)
+                         k == <<WXor(mk[1], FK[1]), WXor(mk[2], FK[2]), WXor(mk[3], FK[3]), WXor(mk[4], FK[4])>> \o RoundKeys(key)
+                     IN [i \in 1..32 |-> WXor(WXor(WXor(k[i + 1], k[i + 2]), k[i + 3]), CKw(i - 1))]
+EncTauInputs(key, blk) == LET rk == RoundKeys(key)
+                              xs == FoldLeft(LAMBDA x, i : Append(x, WXor(x[i], TT(WXor(WXor(WXor(x[i + 1], x[i + 2]), x[i + 3]), rk[i])))),
+                                             BytesToWords(blk), Range1(32))
+                          IN [i \in 1..32 |-> WXor(WXor(WXor(xs[i + 1], xs[i + 2]), xs[i + 3]), rk[i])]
 
 Formula(x) == CASE x.kind = "sbox" -> SBox(x.x)
                 [] x.kind = "ttab" -> TTab(x.j, x.x)
@@ -46,6 +65,11 @@ Next == /\ ~done /\ done' = TRUE /\ c' = c
         /\ CASE c.kind = "vec" ->
                   PrintT(<<"CASE", ToJson([case |-> c, expect |-> [enc |-> Enc(Val(c.k), Val(c.b)),
                                                                    dec |-> Dec(Val(c.k), Val(c.b))]])>>)
+             [] c.kind = "findhw" ->
+                  LET key == Val(<<"lcg", 1000 + c.s>>) blk == Val(<<"lcg", c.s>>)
+                      ki == KeyTauInputs(key) ei == EncTauInputs(key, blk)
+                  IN PrintT(<<"HW", ToJson([s |-> c.s, khit |-> \E i \in 1..32 : Edge(ki[i]), ehit |-> \E i \in 1..32 : Edge(ei[i]),
+                                                khitf |-> \E i \in 1..32 : EdgeF(ki[i]), ehitf |-> \E i \in 1..32 : EdgeF(ei[i])])>>)
              [] c.kind = "keylen" ->
                   PrintT(<<"CASE", ToJson([case |-> c, expect |-> [err |-> c.n # 16]])>>)
              [] OTHER ->
